@@ -141,6 +141,21 @@ class CutScn:
                                 probe(ci, f"w{r}")
 
                     S.user(wc, f"wait{ci}.{r}")
+            if P.get("sender") is not None:
+
+                def snd(ci=P["sender"]):
+                    # keeps sending small items: some send fails once the peer is gone, which leaves
+                    # unflushed bytes in the (BufferedWriter-like) pipe writer
+                    try:
+                        for i in range(8):
+                            chans[ci].send(i)
+                        w.observe("sender", "done")
+                    except OSError:
+                        w.observe("sender", "OSError")
+                    except BaseException as e:  # noqa: BLE001
+                        w.observe("sender", type(e).__name__)
+
+                S.user(snd, "sender")
             if P.get("callback") is not None:
                 chans[P["callback"]].setcallback(cbcalls.append, endmarker=END)
             if inflight is not None:
@@ -231,6 +246,8 @@ class CutScn:
                 if idx != sorted(idx):
                     return V("order", f"channel {ci} receiver {e[2]} got items out of order")
         for e in obs:
+            if e[0] == "sender" and e[1] not in ("done", "OSError"):
+                return V("wrong-exception", f"send on the survivor raised {e[1]} (expected OSError or success)")
             if e[0] == "recv2":
                 return V("receive-after-eof", f"{e}")
         for ci, n in P["waiters"].items():
@@ -310,6 +327,8 @@ BASES = [
     {"items": [(0, 0), (0, 5), (0, 300)], "extra": 0, "closes": [], "block": False, "receivers": {0: 1}, "waiters": {0: 1}, "callback": None, "inflight": False},
     # B: two channels interleaved, two receivers on one, callback with endmarker on the other, worker stays alive
     {"items": [(0, 5), (1, 5), (0, 0), (1, 40)], "extra": 1, "closes": [1], "block": True, "receivers": {0: 2}, "waiters": {0: 1, 1: 1}, "callback": 1, "inflight": False},
+    # D: the survivor keeps sending small items while the peer dies (a send fails before the receiver thread sees EOF)
+    {"items": [(0, 5), (1, 5)], "extra": 1, "closes": [], "block": True, "receivers": {1: 1}, "waiters": {0: 1}, "callback": None, "inflight": False, "sender": 0},
     # C: nothing but an in-flight remote_exec and idle channels, two waitclose callers
     {"items": [(1, 5)], "extra": 1, "closes": [], "block": True, "receivers": {1: 1}, "waiters": {0: 2}, "callback": None, "inflight": True},
 ]
@@ -328,10 +347,10 @@ def run(tier: str, only=None) -> int:
     transports = ("popen", "socket", "via")
     for bi, base in enumerate(BASES):
         for tr in transports:
-            name = f"cut/{'ABC'[bi]}:{tr}"
+            name = f"cut/{'ABDC'[bi]}:{tr}"
             if only and only not in name:
                 continue
-            if tier == "quick" and tr != "popen" and bi == 2:
+            if tier == "quick" and tr != "popen" and bi >= 2:
                 continue
             P = dict(base, transport=tr, N=None)
             ref = explorer.run_once(CutScn.scenario, CutScn.oracle, P, [])
